@@ -454,6 +454,42 @@ def spec_walk(doc) -> List[Tuple[int, Dict[str, Any]]]:
     return out
 
 
+def spec_order_paths(doc) -> Optional[List[int]]:
+    """Twin of the Lean `specOrder`: the Page nodes in the order in which the depth-first enumeration of ALL simple
+    Kids paths from the root first arrives at them (no visited set; a branch ends only where it would come back to
+    one of its own ancestors). None: root is not a reference / too many paths."""
+    objs = objs_of(doc)
+    root = dget(doc["catalog"], "Pages")
+    if root is None or root[0] != "R":
+        return None
+    order: List[int] = []
+    budget = [100000]
+
+    def rec(nid: int, path: Tuple[int, ...]) -> None:
+        budget[0] -= 1
+        if budget[0] < 0:
+            raise SpecError("too many paths")
+        if nid in path:
+            return
+        node = resolve(objs, ["R", nid])
+        pairs = node[1] if node[0] in ("D", "d") else []
+        t = node_type(pairs)
+        kids = dget(pairs, "Kids")
+        if t == "Pages" and kids is not None:
+            kv = resolve(objs, kids)
+            for kid in (kv[1] if kv[0] == "a" else []):
+                if kid[0] == "R" or (kid[0] == "i" and int(kid[1]) >= 0):
+                    rec(int(kid[1]), path + (nid,))
+        elif t == "Page":
+            if nid not in order:
+                order.append(nid)
+    try:
+        rec(int(root[1]), ())
+    except (SpecError, RecursionError):
+        return None
+    return order
+
+
 def spec_pages(doc) -> Tuple[List[str], Optional[str]]:
     objs = objs_of(doc)
     out: List[str] = []
@@ -1038,6 +1074,22 @@ class DocCheck:
                                       f"(normalised): {','.join(field)}", b, a,
                                       {"op": "attrs", "fields": field})
                             break
+        # (1b) order against the algorithm-independent specification (all simple Kids paths, first arrivals)
+        root = dget(doc["catalog"], "Pages")
+        if err is None and items and root is not None and root[0] == "R":
+            ids_impl = [s.split(" ")[0] for s in items if not s.startswith("None ")]
+            ids_txt = " ".join(ids_impl) or "-"
+            self.req("spec.order", ids_txt, "spec.order" if self.in_domain else "order-wild", {"doc": doc})
+            want = spec_order_paths(doc)
+            if want is None or (not want and not self.in_domain):
+                self.ctx.branch("path-order:skipped")       # too many paths / the fallback scan answered
+            else:
+                self.ctx.branch("path-order:" + str(doc.get("kind")))
+                if self.in_domain and [str(i) for i in want] != ids_impl:
+                    self.fail("pages are not in depth-first Kids order (first arrivals of the depth-first enumeration "
+                              "of all simple Kids paths)", [str(i) for i in want], ids_impl, {"op": "order"})
+                elif not self.in_domain and [str(i) for i in want] != ids_impl:
+                    self.ctx.disagree("order-wild-twin", {"doc": doc}, ids_impl, [str(i) for i in want])
         # (2) selections
         n = len(items)
         if err is None:
@@ -1230,6 +1282,8 @@ def flush(ctx: C.Ctx, checks: List[DocCheck]) -> None:
                            {"op": op})
                     ctx.fail(c.first_fail)
                 continue
+            if op == "order-wild" and m == "outside-domain":
+                continue        # the fallback scan answered, not the walk
             if m != impl and not reported:
                 reported = True
                 ctx.disagree(op, inp if inp is not None else line, impl, m)
@@ -1268,9 +1322,16 @@ def check_doc(ctx: C.Ctx, doc, pending: List[DocCheck], sels=None, rotation=None
 def gen_doc(ctx: C.Ctx, i: int):
     rng = ctx.rng
     g = DocGen(rng, ctx)
-    doc = g.tree_doc()
     m = i % 10
-    if m in (6, 7):
+    if m == 7:
+        # small, dense Kids graph: many shared nodes, cycles through several nodes, repeated kids
+        doc = g.tree_doc(mode="random", budget=rng.choice([4, 8, 8, 15]))
+        for _ in range(rng.randint(2, 4)):
+            add_graph_edges(rng, doc, ctx)
+        ctx.branch("graph:dense")
+        return doc
+    doc = g.tree_doc()
+    if m == 6:
         add_graph_edges(rng, doc, ctx)
     elif m in (8, 9):
         if rng.random() < 0.3:
